@@ -81,6 +81,7 @@ def run(tier, seed, replay=None):
     traces = run_histories(chk, binary, [{k: v for k, v in s.items() if not k.startswith('_')} for s in scripts])
     nfind = oracle_pass(chk, scripts, traces, ('C01',))
     stats, bad = ta_correspondence(chk, traces, scripts=scripts)
+    pstats = pins_correspondence(chk, traces, scripts)
     nt = sum(1 for r in traces.values() if nontrivial_history(r))
     events = sum(len(r) for r in traces.values())
     chk.samples += [{'history': s['name'], 'machine': s['_machine']['name'], 'config': s['config'], 'first_events': [e['op'] for e in s['events'][:12]]} for s in scripts[:2]]
@@ -88,7 +89,7 @@ def run(tier, seed, replay=None):
         rule='random structured NRI histories (create/start/update/stop/remove, synchronize, reconfigure, restart) on 8 synthetic machines; '
              'non-trivial = >=2 live containers at once, >=1 exclusive grant, >=1 release and >=1 request that changed another container',
         evaluations=events, distinct=nt, traces=stats['traces'],
-        extra_cov={'histories': len(traces), 'events': events, 'model_ops': {k: v for k, v in stats.items()},
+        extra_cov={'histories': len(traces), 'events': events, 'model_ops': {k: v for k, v in stats.items()}, 'pins': dict(pstats),
                    'oracle_findings': {'%s/%s' % k: v for k, v in nfind.items()}})
 
 
